@@ -63,6 +63,19 @@ CHECKS = {
             "UNSEGMENTED inside an open group of the same APID is ambiguous in the statement; either reading is accepted. "
             "Observed through a header-only definition so that every assembled packet is yielded.",
             "DESIGN.md 3/C12"),
+    "C10": ("fault_enumeration",
+            "fault enumeration: every cut offset of Hypothesis-generated packet streams x source kinds x read sizes, "
+            "plus arbitrary byte strings (Hypothesis and an atheris/libFuzzer campaign), against a validity predicate "
+            "over the yielded items",
+            "The producer dying at every byte offset of each generated stream is enumerated for bytes, BytesIO, real "
+            "file, short-reading file object and a scripted socket closed by its peer, at rotating read sizes, through "
+            "ccsds_generator and packet_generator; arbitrary byte strings extend the domain. The predicate checks "
+            "termination (by a progress bound, not a timeout), completeness of every item, consecutive slicing and a "
+            "remainder shorter than one packet. Complete over the cut points of each generated stream, sampled over "
+            "streams.",
+            "A socket.socket subclass overriding recv is an admissible socket; a loop that neither yields nor polls "
+            "would only be seen by the runner's watchdog (reported inconclusive).",
+            "DESIGN.md 3/C10"),
 }
 
 PENDING_REASON = "check not built yet in this round (planned, see DESIGN.md section 3); nothing is claimed for it"
